@@ -375,6 +375,27 @@ Proof.
     destruct (sift_down_ok dt _ _ _ Hh P1 Hfd _ _ E2) as [H2 [F2 [P2 K2]]].
     destruct (place_ok h2 i2 dt H2 P2 K2) as [A F]. split; auto. eapply fr_trans; eauto.
 Qed.
+(* if the sifted timer ends in a min slot, needs_program is set *)
+Lemma resift_np h i dt : hole h i dt ->
+  h_ent (resift key h dt i) hid dt < 2 -> h_np (resift key h dt i) = true.
+Proof.
+  intros Hh. unfold resift. pose proof Hh as [Hc [Hi Hp] _ _ _ _ _].
+  rewrite heap_id_mod, Hp.
+  assert (Hfu : i <= Z.of_nat (Z.to_nat i)) by (rewrite Z2Nat.id; lia).
+  assert (Hs : false = true -> kids_ge h i dt) by discriminate.
+  destruct (sift_up (Z.to_nat i) key hid dt h i false) as [[h1 i1] su] eqn:E1.
+  destruct (sift_up_ok dt _ _ _ _ Hh Hfu Hs _ _ _ E1) as [H1 [F1 [P1 [K1 N1]]]].
+  assert (Fin : forall h2 i2, hole h2 i2 dt ->
+            h_ent (heap_set h2 i2 dt) hid dt < 2 -> h_np (heap_set h2 i2 dt) = true).
+  { intros h2 i2 [_ [Hi2 Hp2] _ _ _ _ _]. rewrite hs_ent, hs_np, Hp2, !Z.eqb_refl.
+    intros L. destruct (Z.ltb_spec i2 2); auto. lia. }
+  destruct su; [apply Fin; auto|].
+  destruct (N1 eq_refl) as [-> ->].
+  destruct (sift_down (Z.to_nat (h_count h)) key hid dt h i) as [h2 i2] eqn:E2.
+  assert (Hfd : h_count h - i <= Z.of_nat (Z.to_nat (h_count h))) by (rewrite Z2Nat.id; lia).
+  destruct (sift_down_ok dt _ _ _ Hh P1 Hfd _ _ E2) as [H2 _].
+  apply Fin; auto.
+Qed.
 End Sift.
 
 (* ------------------------------------------------------------------------------------------------ *)
@@ -635,7 +656,9 @@ Variable key : Z -> Z -> Z.
 Theorem update_inv S h dt key0 :
   Inv key0 S h -> S dt -> (forall g u, u <> dt -> key g u = key0 g u) ->
   Inv key S (update key h dt) /\ np_ok h (update key h dt) /\
-  (forall g u, ~ S u -> h_ent (update key h dt) g u = h_ent h g u).
+  (forall g u, ~ S u -> h_ent (update key h dt) g u = h_ent h g u) /\
+  (h_np (update key h dt) = true \/
+   (h_slot (update key h dt) 0 = h_slot h 0 /\ h_slot (update key h dt) 0 <> dt)).
 Proof.
   intros [[Hc Hev] Hn H0 H1 Hz Hs] Sdt Hk. unfold update, DTH_TARGET_ID, DTH_DEADLINE_ID.
   assert (B : BOUND = 2147483646) by reflexivity. assert (CM : CAPMAX = 2147483622) by reflexivity.
@@ -648,7 +671,15 @@ Proof.
   destruct (resift_ok key S 1 (or_intror eq_refl) _ _ _ Ho1) as [I1 F1].
   set (h2 := resift key h1 dt (h_ent h1 1 dt)) in *.
   assert (C1 : h_count h1 = h_count h) by apply F0. assert (C2 : h_count h2 = h_count h1) by apply F1.
-  split; [constructor|split].
+  assert (NPO : np_ok h h2) by (eapply np_ok_trans; eapply fr_np_ok; eauto).
+  assert (TCH : h_np h2 = true \/ (h_slot h2 0 = h_slot h 0 /\ h_slot h2 0 <> dt)).
+  { destruct NPO as [_ [X|[X0 _]]]; auto.
+    destruct (Z.eq_dec (h_slot h2 0) dt) as [E|E]; [left|right; auto].
+    assert (E1 : h_slot h1 0 = dt) by (rewrite <- E; symmetry; apply (fr_other _ _ _ _ F1); discriminate).
+    destruct (hi_bwd _ _ _ _ H0 dt Sdt) as [R0 _].
+    destruct (hi_fwd _ _ _ _ I0 0 ltac:(lia) eq_refl) as [_ E0]. rewrite E1 in E0.
+    apply (fr_np_mono _ _ _ _ F1). apply (resift_np key S 0 (or_introl eq_refl) _ _ _ Ho0). fold h1. lia. }
+  split; [constructor|split; [|split]].
   - rewrite C2, C1. auto.
   - auto.
   - eapply fr_hinv_other; eauto; lia.
@@ -662,13 +693,15 @@ Proof.
     + rewrite (fr_ent_other _ _ _ _ F1) by auto. destruct (Z.eq_dec g 0) as [->|N0].
       * apply (fr_ent_out _ _ _ _ F0); auto.
       * apply (fr_ent_other _ _ _ _ F0); auto.
+  - exact TCH.
 Qed.
 
 Theorem insert_inv S h dt qos :
   Inv key S h -> ~ S dt -> dt <> 0 -> h_count h + 2 <= CAPMAX ->
   let h' := insert key h dt qos in
   Inv key (fun u => u = dt \/ S u) h' /\ h_count h' = h_count h + 2 /\ np_ok h h' /\
-  (forall g u, ~ S u -> u <> dt -> h_ent h' g u = h_ent h g u).
+  (forall g u, ~ S u -> u <> dt -> h_ent h' g u = h_ent h g u) /\
+  (h_np h' = true \/ (h_slot h' 0 = h_slot h 0 /\ h_slot h' 0 <> dt)).
 Proof.
   intros [[Hc Hev] Hn H0 H1 Hz Hs] Nd Nz Hb. unfold insert, DTH_ID_COUNT, DTH_TARGET_ID, DTH_DEADLINE_ID.
   assert (B : BOUND = 2147483646) by reflexivity. assert (CM : CAPMAX = 2147483622) by reflexivity.
@@ -687,7 +720,7 @@ Proof.
     assert (Sg : h_segs h = 0).
     { destruct (Z.eq_dec (h_segs h) 0); auto. destruct Hs3 as [|X]; auto.
       pose proof (cap_facts (h_segs h - 1) ltac:(lia)). fold c in X. lia. }
-    cbv zeta. split; [constructor|split; [|split]]; simpl.
+    cbv zeta. split; [constructor|split; [|split; [|split]]]; simpl.
     + rewrite E0c, Ec. split; [lia|reflexivity].
     + intros [X|X]; [congruence|contradiction].
     + constructor; simpl.
@@ -711,6 +744,7 @@ Proof.
     + rewrite E0c. reflexivity.
     + split; simpl; auto.
     + intros g u Nu Ne. rewrite E0e. unfold upd2. destruct (g =? 1), (g =? 0), (Z.eqb_spec u dt); try congruence.
+    + left; reflexivity.
   - (* general case *)
     set (h1 := if c + 2 >? capacity (h_segs h0) then grow h0 else h0).
     assert (E1 : h_count h1 = c + 2 /\ h_slot h1 = h_slot h /\ h_ent h1 = h_ent h /\ (h_np h = true -> h_np h1 = true) /\
@@ -740,7 +774,17 @@ Proof.
     destruct (resift_ok key S' 1 (or_intror eq_refl) _ _ _ Ho1) as [I1 F1].
     set (h3 := resift key h2 dt (c + 1)) in *.
     assert (C3 : h_count h3 = c + 2) by (rewrite (fr_count _ _ _ _ F1); auto).
-    split; [constructor|split; [|split]].
+    assert (N01 : np_ok h h1).
+    { split; auto. right. rewrite E1l. auto. }
+    assert (NPO : np_ok h h3).
+    { eapply np_ok_trans; [exact N01|]. eapply np_ok_trans; eapply fr_np_ok; eauto. }
+    assert (TCH : h_np h3 = true \/ (h_slot h3 0 = h_slot h 0 /\ h_slot h3 0 <> dt)).
+    { destruct NPO as [_ [X|[X0 _]]]; auto.
+      destruct (Z.eq_dec (h_slot h3 0) dt) as [E|E]; [left|right; auto].
+      assert (E2 : h_slot h2 0 = dt) by (rewrite <- E; symmetry; apply (fr_other _ _ _ _ F1); discriminate).
+      destruct (hi_fwd _ _ _ _ I0 0 ltac:(lia) eq_refl) as [_ E0]. rewrite E2 in E0.
+      apply (fr_np_mono _ _ _ _ F1). apply (resift_np key S' 0 (or_introl eq_refl) _ _ _ Ho0). fold h2. lia. }
+    split; [constructor|split; [|split; [|split]]].
     + rewrite C3. split; [lia|]. rewrite <- Z.add_mod_idemp_l, Hev by lia. reflexivity.
     + intros [X|X]; [congruence|contradiction].
     + eapply fr_hinv_other; eauto; lia.
@@ -749,15 +793,14 @@ Proof.
       apply Hz. fold c. lia.
     + unfold seg_ok. rewrite (fr_segs _ _ _ _ F1), (fr_segs _ _ _ _ F0), C3. rewrite <- E1c. exact E1s.
     + auto.
-    + assert (N01 : np_ok h h1).
-      { split; auto. right. rewrite E1l. auto. }
-      eapply np_ok_trans; [exact N01|]. eapply np_ok_trans; eapply fr_np_ok; eauto.
+    + exact NPO.
     + intros g u Nu Ne. assert (NS' : ~ S' u) by (unfold S'; tauto).
       destruct (Z.eq_dec g 1) as [->|N1].
       * rewrite (fr_ent_out _ _ _ _ F1) by auto. rewrite (fr_ent_other _ _ _ _ F0) by lia. rewrite E1e. reflexivity.
       * rewrite (fr_ent_other _ _ _ _ F1) by auto. destruct (Z.eq_dec g 0) as [->|N0].
         -- rewrite (fr_ent_out _ _ _ _ F0) by auto. rewrite E1e. reflexivity.
         -- rewrite (fr_ent_other _ _ _ _ F0) by auto. rewrite E1e. reflexivity.
+    + exact TCH.
 Qed.
 End Ops.
 
@@ -1281,27 +1324,6 @@ Proof.
   rewrite (sift_down_ext dt _ _ _ Hh P1); auto. rewrite Z2Nat.id; lia.
 Qed.
 
-(* if the sifted timer ends in a min slot, needs_program is set *)
-Lemma resift_np h i dt : hole key S hid h i dt ->
-  h_ent (resift key h dt i) hid dt < 2 -> h_np (resift key h dt i) = true.
-Proof.
-  intros Hh. unfold resift. pose proof Hh as [Hc [Hi Hp] _ _ _ _ _].
-  rewrite heap_id_mod, Hp.
-  assert (Hfu : i <= Z.of_nat (Z.to_nat i)) by (rewrite Z2Nat.id; lia).
-  assert (Hs : false = true -> kids_ge key hid h i dt) by discriminate.
-  destruct (sift_up (Z.to_nat i) key hid dt h i false) as [[h1 i1] su] eqn:E1.
-  destruct (sift_up_ok key S hid Hhid dt _ _ _ _ Hh Hfu Hs _ _ _ E1) as [H1 [F1 [P1 [K1 N1]]]].
-  assert (Fin : forall h2 i2, hole key S hid h2 i2 dt ->
-            h_ent (heap_set h2 i2 dt) hid dt < 2 -> h_np (heap_set h2 i2 dt) = true).
-  { intros h2 i2 [_ [Hi2 Hp2] _ _ _ _ _]. rewrite hs_ent, hs_np, Hp2, !Z.eqb_refl.
-    intros L. destruct (Z.ltb_spec i2 2); auto. lia. }
-  destruct su; [apply Fin; auto|].
-  destruct (N1 eq_refl) as [-> ->].
-  destruct (sift_down (Z.to_nat (h_count h)) key hid dt h i) as [h2 i2] eqn:E2.
-  assert (Hfd : h_count h - i <= Z.of_nat (Z.to_nat (h_count h))) by (rewrite Z2Nat.id; lia).
-  destruct (sift_down_ok key S hid Hhid dt _ _ _ Hh P1 Hfd _ _ E2) as [H2 _].
-  apply Fin; auto.
-Qed.
 End KeyFrame.
 
 Lemma remove_step_ext key0 key S hid hr h dt idx :
@@ -1370,3 +1392,65 @@ Proof.
   - eapply hinv_ext; eauto.
   - eapply hinv_ext; eauto.
 Qed.
+
+(* whenever an operation on timer dt leaves needs_program clear, the target min slot still holds the same timer,
+   and that timer is not dt (so neither the minimum nor its key changed) *)
+Lemma remove_touch key S h dt :
+  Inv key S h -> S dt ->
+  h_np (remove key h dt) = true \/
+  (h_slot (remove key h dt) 0 = h_slot h 0 /\ h_slot (remove key h dt) 0 <> dt).
+Proof.
+  intros I Sdt. destruct (remove_inv key S h dt I Sdt) as [I' [_ [_ [_ [[_ [X|[X0 _]]] _]]]]]; auto.
+  right. split; auto. intros E.
+  assert (Nz : dt <> 0) by (intros ->; exact (iv_null _ _ _ I Sdt)).
+  destruct (Z.eq_dec (h_count (remove key h dt)) 0) as [C|C].
+  - apply Nz. rewrite <- E. apply (iv_zero _ _ _ I'). lia.
+  - destruct (iv_cnt _ _ _ I') as [Cb _].
+    destruct (hi_fwd _ _ _ _ (iv_h0 _ _ _ I') 0 ltac:(lia) eq_refl) as [[_ N] _]. apply N. exact E.
+Qed.
+
+(* population bound: if every stored timer is one of the records 1..N, the heap has at most 2N cells in use *)
+Lemma NoDup_map_inj {A B} (f : A -> B) (l : list A) :
+  NoDup l -> (forall x y, In x l -> In y l -> f x = f y -> x = y) -> NoDup (map f l).
+Proof.
+  induction 1 as [|a l Na Nl IH]; intros Inj; simpl; constructor.
+  - intros Hin. apply in_map_iff in Hin. destruct Hin as [y [E Hy]].
+    apply Na. rewrite (Inj a y); auto; [left; auto|right; auto].
+  - apply IH. intros x y Hx Hy. apply Inj; right; auto.
+Qed.
+
+Lemma zrange_NoDup n : NoDup (zrange n).
+Proof.
+  unfold zrange. apply NoDup_map_inj; [apply seq_NoDup|]. intros x y _ _ E. lia.
+Qed.
+Lemma zrange_In n x : In x (zrange n) <-> 0 <= x < n.
+Proof.
+  unfold zrange. rewrite in_map_iff. split.
+  - intros [k [<- Hk]]. apply in_seq in Hk. lia.
+  - intros H. exists (Z.to_nat x). split; [lia|]. apply in_seq. lia.
+Qed.
+Lemma zrange_length n : 0 <= n -> Z.of_nat (length (zrange n)) = n.
+Proof. intros. unfold zrange. rewrite map_length, seq_length. lia. Qed.
+
+Section CountBound.
+Local Ltac Zify.zify_post_hook ::= Z.div_mod_to_equations.
+Lemma count_bound key S h N :
+  0 <= N -> Inv key S h -> (forall t, S t -> 1 <= t <= N) -> h_count h <= 2 * N.
+Proof.
+  intros HN I Hid. destruct (iv_cnt _ _ _ I) as [[C0 _] Cev].
+  set (n := h_count h / 2). assert (Hn : h_count h = 2 * n) by (unfold n; lia).
+  set (l := map (fun k => h_slot h (2 * k)) (zrange n)).
+  assert (ND : NoDup l).
+  { unfold l. apply NoDup_map_inj; [apply zrange_NoDup|]. intros x y Hx Hy E.
+    apply zrange_In in Hx. apply zrange_In in Hy.
+    destruct (heap_is_set key S h I) as [HS _]. destruct (HS 0 (or_introl eq_refl)) as [_ [_ Inj]].
+    assert (2 * x = 2 * y); [|lia]. apply Inj; auto; try lia. }
+  assert (INC : incl l (map (fun k => k + 1) (zrange N))).
+  { intros t Ht. unfold l in Ht. apply in_map_iff in Ht. destruct Ht as [k [<- Hk]]. apply zrange_In in Hk.
+    destruct (hi_fwd _ _ _ _ (iv_h0 _ _ _ I) (2 * k) ltac:(lia) ltac:(lia)) as [St _].
+    specialize (Hid _ St). apply in_map_iff. exists (h_slot h (2 * k) - 1). split; [lia|]. apply zrange_In. lia. }
+  pose proof (NoDup_incl_length ND INC) as L. unfold l in L. rewrite !map_length in L.
+  assert (0 <= n) by lia.
+  pose proof (zrange_length n ltac:(lia)). pose proof (zrange_length N HN). lia.
+Qed.
+End CountBound.
